@@ -1,5 +1,12 @@
 open BinInt
 open BinNums
+open Common
+
+(** val coq_E380 : code **)
+
+let coq_E380 =
+  Npos (Coq_xO (Coq_xO (Coq_xI (Coq_xI (Coq_xI (Coq_xI (Coq_xI (Coq_xO
+    Coq_xH))))))))
 
 (** val coq_MAXIMUM_ALIGNMENT : coq_Z **)
 
@@ -23,6 +30,37 @@ let next_pow2 x =
 let member_alignment size =
   Z.min (next_pow2 size) coq_MAXIMUM_ALIGNMENT
 
+type pvt =
+| PInt8
+| PInt16
+| PInt32
+| PInt64
+| PInt128
+| PUint8
+| PUint16
+| PUint32
+| PUint64
+| PUint128
+| PChar8
+| PBool
+| PWord of coq_Z
+| POther
+
+(** val known_size_in_bytes_as_word_member : pvt -> coq_Z option **)
+
+let known_size_in_bytes_as_word_member = function
+| PInt16 -> Some (Zpos (Coq_xO Coq_xH))
+| PInt32 -> Some (Zpos (Coq_xO (Coq_xO Coq_xH)))
+| PInt64 -> Some (Zpos (Coq_xO (Coq_xO (Coq_xO Coq_xH))))
+| PInt128 -> Some (Zpos (Coq_xO (Coq_xO (Coq_xO (Coq_xO Coq_xH)))))
+| PUint16 -> Some (Zpos (Coq_xO Coq_xH))
+| PUint32 -> Some (Zpos (Coq_xO (Coq_xO Coq_xH)))
+| PUint64 -> Some (Zpos (Coq_xO (Coq_xO (Coq_xO Coq_xH))))
+| PUint128 -> Some (Zpos (Coq_xO (Coq_xO (Coq_xO (Coq_xO Coq_xH)))))
+| PWord d -> Some d
+| POther -> None
+| _ -> Some (Zpos Coq_xH)
+
 (** val typer_loop : coq_Z list -> coq_Z -> coq_Z -> coq_Z * coq_Z **)
 
 let rec typer_loop members size al =
@@ -42,6 +80,20 @@ let typer_aligned_size members =
 
 let word_accepted declared members =
   Z.leb (typer_aligned_size members) declared
+
+(** val known_sizes : pvt list -> coq_Z list **)
+
+let rec known_sizes = function
+| [] -> []
+| m :: rest ->
+  (match known_size_in_bytes_as_word_member m with
+   | Some s -> s :: (known_sizes rest)
+   | None -> known_sizes rest)
+
+(** val align_struct_word : coq_Z -> pvt list -> code list **)
+
+let align_struct_word declared members =
+  if word_accepted declared (known_sizes members) then [] else coq_E380 :: []
 
 type ty =
 | TInt of coq_Z
